@@ -114,6 +114,12 @@ CLAIMED["C20"] = dict(text="Bounded symbolic exploration of crash points on the 
                   "with the pre-state on failure, and the complete file / first free GROMACS backup name / untouched older backups are checked on success.",
              design="DESIGN.md 4/C20", technique="symbolic execution of the real Python code with z3 (symx): solver-chosen crash point and pre-state (selector-only, exhaustive over stage boundaries)",
              note="crash = exception at a stage boundary (not process kill); one run per path; the temporary file a failed call leaves registered in vermouth's singleton writer is outside the claim. " + NOTE_COMMON)
+CLAIMED["C11"] = dict(text="Bounded symbolic exploration of the real gen_params -> .itp -> Topology.from_gmx_topfile / MetaMolecule.from_itp round trip with real files: "
+                  "the sequence (names, length), the input form (-seq, .json residue graph incl. a star, a block with a log entry and an atom-removing link) are "
+                  "solver-chosen; atoms, interactions with guards, and (when no link is missing by recount) the recovered residue graph are compared with the "
+                  "molecule captured at the writer.",
+             design="DESIGN.md 4/C11", technique="symbolic execution of the real Python code with z3 (symx): selector-only round-trip over formats with real files",
+             note="values are concrete (this is a format round trip); force field of three block kinds with bonds/constraints/guards/versions/exclusions/citations; <= 3 (quick) / 4 (thorough) residues; number formatting beyond 6 decimals is outside. " + NOTE_COMMON)
 NOT_YET = {}
 def main():
     props = [json.loads(l) for l in open(os.path.join(ROOT, "properties.jsonl"))]
